@@ -1913,6 +1913,79 @@ def spec_display_none_decls(ctx, make_exe):
           total_checked += 1
     return {"function": f.name, "paths": sum(len(o) for (_, _, o) in all_outs), "checked": total_checked}
 
+# ----------------------------------------------------------------------------
+# SPEC: link footnote numbering: start_link records the target, end_link prints the number of links so far
+# ----------------------------------------------------------------------------
+
+def spec_link_footnotes(ctx, make_exe):
+    fs = the(ctx.find(r"::start_link$", debug=["self", "target"]) and
+             [f for f in ctx.find(r"::start_link$", debug=["self", "target"]) if "TextRenderer" in f.args[0][1]], "TextRenderer::start_link")
+    fe = the([f for f in ctx.find(r"::end_link$", debug=["self"]) if "TextRenderer" in f.args[0][1]], "TextRenderer::end_link")
+    names = ctx.structs["TextRenderer"]
+    total = 0
+    import summaries
+    orig = summaries.summarize
+    for k in (0, 1, 2):
+        links = VVec([VOpaque("String", "link%d" % i) for i in range(k)])
+        for which in ("start", "end"):
+            if which == "end" and k == 0:
+                continue
+            exe = make_exe(loop_bound=4)
+            tr = VAgg("TextRenderer", None, [VVec([VOpaque("SubRenderer<D>", "sub0")]) if n == "subrender" else links for n in names], names)
+            exe.cell_n += 1
+            cid = "cell%d" % exe.cell_n
+            exe.global_cells[cid] = tr
+            shown = []
+
+            def summ(exe_, st_, f_, bb_, callee, args, dest_ty, shown=shown):
+                c = callee.strip()
+                if re.search(r"Argument::<'_>::new_display::<usize>$", c):
+                    v = args[0]
+                    while isinstance(v, VRef):
+                        v = exe_.deref(st_, v)
+                    shown.append(v)
+                    return [(st_, VOpaque("Argument", "fmtarg"))]
+                if re.search(r"<str as ToString>::to_string$", c) or re.search(r"as ToString>::to_string$", c):
+                    return [(st_, VOpaque("String", "target_string"))]
+                if re.search(r"as Renderer>::(start_link|end_link|add_inline_text)$", c):
+                    return [(st_, VAgg("Result::Ok", "Ok", [VUnit()]))]
+                return orig(exe_, st_, f_, bb_, callee, args, dest_ty)
+            summaries.summarize = summ
+            try:
+                if which == "start":
+                    outs = exe.run(fs.name, {1: VRef("cell", cid), 2: VRef("val", VOpaque("str", "target"))}, State())
+                else:
+                    outs = exe.run(fe.name, {1: VRef("cell", cid)}, State())
+            finally:
+                summaries.summarize = orig
+            total += len(outs)
+            for (s2, ret) in outs:
+                blk = exe.deref(s2, VRef("cell", cid))
+                lk = blk.fields[names.index("links")]
+                seq = [c[0] for c in s2.calls]
+                if which == "start":
+                    ok = isinstance(lk, VVec) and len(lk.elems) == k + 1 and getattr(lk.elems[-1], "name", "") == "target_string" \
+                        and [getattr(e, "name", "") for e in lk.elems[:-1]] == ["link%d" % i for i in range(k)]
+                    post(exe, s2, z3.BoolVal(bool(ok)), fs.name, "start_link appends the target to the list of links (k=%d)" % k)
+                    post(exe, s2, z3.BoolVal(any(re.search(r"as Renderer>::start_link$", c) for c in seq)), fs.name,
+                         "start_link forwards to the current sub-renderer")
+                else:
+                    post(exe, s2, z3.BoolVal(isinstance(lk, VVec) and len(lk.elems) == k), fe.name, "end_link does not change the list of links")
+                    ie = [i for i, c in enumerate(seq) if re.search(r"as Renderer>::end_link$", c)]
+                    ia = [i for i, c in enumerate(seq) if re.search(r"as Renderer>::add_inline_text$", c)]
+                    post(exe, s2, z3.BoolVal(len(ie) == 1), fe.name, "end_link closes the link on the current sub-renderer")
+                    if ia:
+                        post(exe, s2, z3.BoolVal(len(ia) == 1 and ie and ie[0] < ia[0]), fe.name, "the reference follows the link text")
+                        okn = len(shown) == 1 and isinstance(shown[0], VInt)
+                        post(exe, s2, z3.BoolVal(bool(okn)), fe.name, "exactly one number is printed")
+                        if okn:
+                            post(exe, s2, shown[0].e == u64(k), fe.name, "the reference number is the number of links started so far (k=%d)" % k)
+                    # whether a reference is printed is governed by include_link_footnotes only
+                    flag = [v for n_, v in exe.inputs.items() if n_.endswith(".%d.%d" % (ctx.field("SubRenderer", "options"), ctx.field("RenderOptions", "include_link_footnotes")))]
+                    if flag:
+                        post(exe, s2, flag[0] == z3.BoolVal(bool(ia)), fe.name, "a reference is printed iff link footnotes are enabled")
+    return {"functions": [fs.name, fe.name], "paths": total}
+
 
 ALL = [
     Spec("table_col_width", ["C06", "C02", "C01"], spec_table_col_width,
@@ -2029,6 +2102,12 @@ ALL = [
          bounds="two declarations of any kind (all Decl variants and their value enums symbolic); zero-ness of a length an arbitrary boolean",
          assumptions=["declarations are opaque values with symbolic enum discriminants; floating point lengths are opaque, `== 0.0` is an arbitrary boolean"],
          replay=lambda fd, vals, info: {"harness": "m_display_none", "values": [[0]]}),
+    Spec("link_footnotes", ["C08"], spec_link_footnotes,
+         functions=["TextRenderer::start_link", "TextRenderer::end_link"],
+         bounds="0-2 links already recorded; footnote flag symbolic",
+         assumptions=["the sub-renderer's start_link / end_link / add_inline_text succeed and are observed, not executed",
+                      "the number shown is the value handed to fmt::Argument::new_display (formatting itself is std)"],
+         replay=lambda fd, vals, info: {"harness": "m_link_footnotes", "values": [[0]]}),
     Spec("table_alloc_2col", ["C06", "C02", "C01", "C03"], spec_table_alloc_2,
          functions=["render_table_tree (whole function incl. estimate loop, allocation closures, shrink loop)",
                     "RenderTable::rows", "RenderTableRow::cells", "RenderTableCell::get_size_estimate", "SizeEstimate::max",
